@@ -69,6 +69,20 @@ reg("C04", "exploration",
     "Exponents outside the box are not explored; reference verdict from vp/dims.py.",
     "DESIGN.md 3/C04")
 
+reg("C02", "exploration",
+    "deviation-bounded exhaustive enumeration of argument tuples per calculation function, judged "
+    "by the residual of the module's own law, unit metamorphism and inverse pairs",
+    "For each of the ~640 drivable calculation functions the default tuple and every tuple within "
+    "k deviations (k=1 quick, k=2 thorough; magnitude x1e3 / x1e-3 / sign, unit spelling kilo / "
+    "milli / cm-g-min) is executed on the real function; SI values of arguments and result are "
+    "substituted into the module's published equation (30-digit arithmetic), respelled tuples must "
+    "give equal results, documented magnitude / ceiling functions are checked against the root, "
+    "and vector-law forms are composed on generic symbolic vectors of length 1..3.",
+    "Magnitudes outside the menu are not explored; laws with derivatives / integrals / sums / "
+    "applied functions get the metamorphic oracle only; negative-argument tuples are judged only "
+    "when the law is satisfiable for them; allow-list data/c02_magnitude_or_ceil.json.",
+    "DESIGN.md 3/C02")
+
 
 def build() -> dict:
     props = [json.loads(l)["id"] for l in open(os.path.join(ROOT, "properties.jsonl"))]
